@@ -290,6 +290,14 @@ def desugar_for(src, loop, n, kind, ed, rules, where):
         ex = src.text[s[e0].start:s[e1 - 1].end]
         head = "let mut %s: usize = 0; let %s: usize = (%s).len(); while %s < %s " % (iv, hv, ex, iv, hv)
         bind = " let %s = &(%s)[%s]; %s += 1; " % (pat, ex, iv, iv)
+    elif kind == "iter":
+        # `for x in e.iter()` over a Vec / slice: as kind `ref`, on the expression in front of `.iter()`
+        k = tail_is(["iter"])
+        if k is None:
+            raise LostAnchor("%s: for loop %d does not iterate over .iter() (R14)" % (where, n))
+        ex = src.text[s[e0].start:s[k - 1].end]
+        head = "let mut %s: usize = 0; let %s: usize = (%s).len(); while %s < %s " % (iv, hv, ex, iv, hv)
+        bind = " let %s = &(%s)[%s]; %s += 1; " % (pat, ex, iv, iv)
     elif kind == "vec":
         # `for x in v` over a Vec<T> BY VALUE (the elements are moved out one by one): the loop std
         # defines it to be, with std's vec::IntoIter written as the prelude stand-in VxVecIter
